@@ -40,7 +40,7 @@ def signed_perms():
 
 def gen_cases(tier, seed):
     SP = signed_perms()
-    n = 64 if tier == "quick" else 384
+    n = 64 if tier == "quick" else 768
     cases = []
     nsp = 0
     for i in range(n):
